@@ -189,6 +189,10 @@ type mirArgs struct {
 	// after the local copy is complete: the link goes down, the submitting node is stopped and started again on
 	// its data directory; the unit must still report its final state and size and hand out its complete output
 	RestartA bool `json:"restart_a"`
+	// "" : the link is down at the restart and the copy is complete.  "shortcopy": the node died after it had
+	// recorded the final status but before its copy of the output was complete (the two are written by separate
+	// monitors); the link stays up and the restarted node has to complete the copy
+	RestartMode string `json:"restart_mode"`
 }
 
 func mirByte(i int64) byte { return byte((i*13 + i/253) % 256) }
@@ -376,9 +380,14 @@ func mirApply(op string, raw json.RawMessage) interface{} {
 	out := map[string]interface{}{"total": total, "local_len": localLen, "equal": equal, "caught_up": caught,
 		"not_prefix": notPrefix, "local_state": aState, "local_size": aSize, "nontrivial": true}
 	if a.RestartA && caught {
-		atomic.StoreInt32(&hub.cut, 1)
+		if a.RestartMode != "shortcopy" {
+			atomic.StoreInt32(&hub.cut, 1)
+		}
 		cancelA()
 		time.Sleep(300 * time.Millisecond)
+		if a.RestartMode == "shortcopy" && total >= 3 {
+			_ = os.Truncate(aOut, total/3)
+		}
 		wA2, err := New(ctx, nA, path.Join(dir, "a"))
 		if err != nil {
 			return map[string]interface{}{"error": "restart: " + err.Error()}
@@ -386,6 +395,15 @@ func mirApply(op string, raw json.RawMessage) interface{} {
 		MainInstance = wA2
 		ids := wA2.ListKnownUnitIDs() // the node looks at its data directory
 		time.Sleep(1500 * time.Millisecond)
+		if a.RestartMode == "shortcopy" {
+			dl := time.Now().Add(12 * time.Second)
+			for time.Now().Before(dl) {
+				if fi, err := os.Stat(aOut); err == nil && fi.Size() >= total {
+					break
+				}
+				time.Sleep(100 * time.Millisecond)
+			}
+		}
 		after := map[string]interface{}{"listed": false, "wt": "", "node": "", "remote_unit": false, "state": -1, "size": int64(-1), "local_len": int64(-1), "equal": false, "results_len": -1}
 		for _, id := range ids {
 			if id == localID {
@@ -465,6 +483,9 @@ func mirGenRestart(v *verifRun) {
 			a.Events = append(a.Events, mirEv{K: "sleep", N: 100 + v.rng.Intn(300)})
 		}
 		a.Events = append(a.Events, mirEv{K: "finish"})
+		if i%2 == 1 {
+			a.RestartMode = "shortcopy"
+		}
 		v.do(mirApply, "mirror", a)
 	}
 }
